@@ -40,9 +40,44 @@ class C04(C01):
                     if set(kw) == {"count"}:
                         end = rng.choice(["start_size", "end_size"])
                         ch["calls"][0] = {"count": kw["count"], end: rng.choice([0.02, 0.03, 0.04]), "preserve": end}
+        # stacks chopped with one Stack.chop call (oracle only: no model request)
+        for _ in range(12 if tier == "quick" else 150):
+            end = rng.choice(["start_size", "end_size"])
+            cases.append(
+                {
+                    "kind": "stack",
+                    "nx": rng.randint(1, 3),
+                    "ny": rng.randint(1, 2),
+                    "tiers": rng.randint(2, 3),
+                    "shift": [rng.choice([0.0, 0.2]), rng.choice([0.0, -0.1]), rng.choice([0.6, 1.0, 1.7])],
+                    "scale": rng.choice([0.6, 0.8, 1.25, 1.5]),
+                    "chop": {"count": rng.randint(4, 9), "c2c_expansion": rng.choice([0.85, 1.1, 1.2]), "preserve": end},
+                }
+            )
         return cases
 
+    def run_impl(self, case: dict) -> Any:
+        if case["kind"] == "stack":
+            return pc.run_stack(case)
+        return super().run_impl(case)
+
+    def requests(self, case: dict, impl: Any) -> List[str]:
+        return [] if case["kind"] == "stack" else super().requests(case, impl)
+
+    def classify(self, case, impl):
+        return "stack" if case["kind"] == "stack" else super().classify(case, impl)
+
+    def nontrivial_key(self, case, impl):
+        import json as _json
+
+        return _json.dumps(case, sort_keys=True) if case["kind"] == "stack" else super().nontrivial_key(case, impl)
+
+    def shrink_candidates(self, case: dict) -> List[dict]:
+        return [] if case["kind"] == "stack" else super().shrink_candidates(case)
+
     def oracle(self, case: dict, impl: Any) -> List[dict]:
+        if case["kind"] == "stack":
+            return pc.oracle_stack(case, impl)
         out: List[dict] = []
         oc = impl["outcome"]
         if oc == "hang":
@@ -53,6 +88,16 @@ class C04(C01):
             return out
         out += pc.oracle_sizes(impl)
         out += pc.oracle_preserve(case, impl)
+        # a second export of the same mesh describes the same cell sizes
+        sec = impl.get("second") or {}
+        if sec.get("outcome") == "ok":
+            for v in pc.oracle_sizes({"hex": sec["hex"]}):
+                v["site"] += ":second-write"
+                out.append(v)
+            if not sec.get("stretched"):
+                for v in pc.oracle_preserve(case, dict(impl, hex=sec["hex"])):
+                    v["site"] += ":second-write"
+                    out.append(v)
         # 'simple' only if the four edges really have equal gradings: decode through the internals
         it = impl["internals"]
         for b, hx in enumerate(impl["hex"]):
